@@ -32,6 +32,7 @@ pub struct LefCase {
 pub const F_LEXER: &str = "lef_lexer_char_index_used_as_byte_index";
 pub const F_DBU: &str = "lef_dbu_per_micron_takes_mantissa_of_scaled_decimal";
 pub const F_PROPS: &str = "lef_reader_drops_macro_and_pin_properties";
+pub const F_ITER: &str = "lef_reader_rejects_iterate_on_polygon_and_path";
 pub const F_NAME: &str = "lef_lexer_rejects_name_starting_with_punctuation";
 
 fn dec(s: &str) -> rust_decimal::Decimal {
@@ -156,10 +157,9 @@ fn dbu_token(r: &Rendered) -> Option<usize> {
 
 /// First name token that starts with a character that is neither a letter, a digit, '-' nor '.': (char, line)
 fn odd_leading_name(r: &Rendered) -> Option<(char, usize)> {
-    let rt: Vec<lr::RTok> = lr::tokenize(&r.text).into_iter().filter(|t| t.k != lr::RK::Comment).collect();
-    for (a, t) in rt.iter().zip(r.toks.iter()) {
-        if t.k == TK::Name && !t.s.starts_with('"') {
-            let c = t.s.chars().next().unwrap_or('a');
+    for a in lr::tokenize(&r.text) {
+        if a.k == lr::RK::Word {
+            let c = r.text[a.start..].chars().next().unwrap_or('a');
             if !(c.is_alphabetic() || c.is_ascii_digit() || c == '-' || c == '.') {
                 let line = 1 + r.text[..a.start].matches('\n').count();
                 return Some((c, line));
@@ -181,8 +181,37 @@ fn passes(cx: &Cx, text: &str, expected: &LefLibrary, odd: Option<(char, usize)>
     }
 }
 
+/// POLYGON / PATH geometries with ITERATE turned into plain shapes.
+fn strip_poly_path_iterate(lib: &mut LefLibrary) -> bool {
+    let mut any = false;
+    let mut fix = |l: &mut LefLayerGeometries| {
+        for g in l.geometries.iter_mut() {
+            if let LefGeometry::Iterate { shape, .. } = g {
+                if !matches!(shape, LefShape::Rect(..)) {
+                    any = true;
+                    *g = LefGeometry::Shape(shape.clone());
+                }
+            }
+        }
+    };
+    for m in lib.macros.iter_mut() {
+        for l in m.obs.iter_mut() {
+            fix(l);
+        }
+        for p in m.pins.iter_mut() {
+            for port in p.ports.iter_mut() {
+                for l in port.layers.iter_mut() {
+                    fix(l);
+                }
+            }
+        }
+    }
+    any
+}
+
 /// Which recorded defect class (input class + failure mode) explains this failure, if any. A class is
-/// named only if removing exactly the defect's trigger from the input (and nothing else) makes the case pass.
+/// named only if removing exactly the triggers of the recorded classes present in the input (and nothing
+/// else) makes the case pass; with several triggers present, the one whose removal is necessary is named.
 fn attribute(case: &LefCase, expected: &LefLibrary, failure: &Opened, cx: &mut Cx) -> Option<&'static str> {
     if let Opened::Err(_, Some((Some(c), line))) = failure {
         if let Some((oc, oline)) = odd_leading_name(&case.r) {
@@ -198,13 +227,18 @@ fn attribute(case: &LefCase, expected: &LefLibrary, failure: &Opened, cx: &mut C
             s.find('.').map(|p| p + 1 < s.len()).unwrap_or(false)
         })
     });
-    let r_props = has_props(&case.lib) && matches!(failure, Opened::Ok(_));
+    let r_props = has_props(&case.lib);
+    let iter_toks = lr::iterate_tokens_of_polygon_and_path(&case.r.toks);
+    let r_iter = !iter_toks.is_empty() && !matches!(failure, Opened::Ok(_));
     let mut applicable: Vec<&'static str> = vec![];
     if r_ascii {
         applicable.push(F_LEXER);
     }
     if dbu_dev.is_some() {
         applicable.push(F_DBU);
+    }
+    if r_iter {
+        applicable.push(F_ITER);
     }
     if r_props {
         applicable.push(F_PROPS);
@@ -217,13 +251,19 @@ fn attribute(case: &LefCase, expected: &LefLibrary, failure: &Opened, cx: &mut C
         if let (Some(i), true) = (dbu_dev, skip != Some(F_DBU)) {
             devs.remove(i);
         }
-        let rr = lr::render(&case.lib, &devs);
+        let mut exp = expected.clone();
+        let omit: &[usize] = if r_iter && skip != Some(F_ITER) {
+            strip_poly_path_iterate(&mut exp);
+            &iter_toks
+        } else {
+            &[]
+        };
+        let rr = lr::render_omit(&case.lib, &devs, omit);
         let odd = odd_leading_name(&rr);
         let mut text = rr.text;
         if r_ascii && skip != Some(F_LEXER) {
             text = ascii_subst(&text);
         }
-        let mut exp = expected.clone();
         if r_props && skip != Some(F_PROPS) {
             clear_props(&mut exp);
         }
